@@ -221,9 +221,13 @@ CaseJson == [tpl |-> cs.tpl,
              corr |-> [kind |-> cs.corr.kind, f |-> cs.corr.f, i |-> cs.corr.i, how |-> cs.corr.how, at |-> cs.corr.at,
                        f2 |-> cs.corr.f2, i2 |-> cs.corr.i2, how2 |-> cs.corr.how2],
              bytes |-> bytes, wf |-> cs.wf, wfname |-> cs.wfname, route |-> RouteOf(cs.wfname), table |-> RouteTable,
-             class |-> out.class, must |-> out.must, why |-> out.why, name |-> name, size |-> size, path |-> path]
+             class |-> out.class, must |-> out.must, mustnotroute |-> MustNotRoute, why |-> out.why, name |-> name, size |-> size, path |-> path]
 GenOut == Done => PrintT(ToJson(CaseJson))
 
 \* printed once, from the initial states' evaluation of this ASSUME-like invariant on a marker case
-CfgOut == (Done /\ cs.tpl = "noext" /\ cs.wf) => PrintT(ToJson([configs |-> MCConfigs]))
+\* log.level of fabio.properties: the glue runs with malformed input are repeated under every level
+LogLevels == {"TRACE", "DEBUG", "INFO", "WARN"}
+\* at the glue (SNIProxy): an input whose length overruns its container is never routed
+MustNotRoute == out.class = "reject" /\ out.must
+CfgOut == (Done /\ cs.tpl = "noext" /\ cs.wf) => PrintT(ToJson([configs |-> MCConfigs, loglevels |-> LogLevels]))
 =============================================================================
